@@ -351,9 +351,12 @@ pub fn run(stim: &Value, rec: &crate::labs::Rec) {
 }
 
 // ---------------------------------------------------------------- seeded stimulus generation
+/// (never starting with 250, the lab codec's marker for scripted refusals and >4 GiB messages)
 fn rand_bytes(rng: &mut impl Rng, n: usize, compressible: bool) -> Vec<u8> {
-    if compressible { let b: u8 = rng.gen(); (0..n).map(|i| if i % 7 == 0 { b.wrapping_add((i / 7) as u8) } else { b }).collect() }
-    else { (0..n).map(|_| rng.gen()).collect() }
+    let mut v: Vec<u8> = if compressible { let b: u8 = rng.gen(); (0..n).map(|i| if i % 7 == 0 { b.wrapping_add((i / 7) as u8) } else { b }).collect() }
+    else { (0..n).map(|_| rng.gen()).collect() };
+    if v.first() == Some(&250) { v[0] = 251; }
+    v
 }
 
 pub fn gen(seed: u64, tier: &str) -> Vec<Value> {
@@ -632,7 +635,7 @@ pub fn gen_limits(seed: u64, tier: &str) -> Vec<Value> {
                             let mut items = vec![];
                             for _ in 0..pos { items.push(json!({"k":"msg","b":bytes_json(&rand_bytes(&mut rng, 3, false)),"wl":l/2})); }
                             match case {
-                                "incompressible_at_limit" => items.push(json!({"k":"msg","b":bytes_json(&(0..l).map(|_| rng.gen::<u8>()).collect::<Vec<u8>>()),"wl":l+1})),
+                                "incompressible_at_limit" => items.push(json!({"k":"msg","b":bytes_json(&rand_bytes(&mut rng, l as usize, false)),"wl":l+1})),
                                 "compressible_over_limit" => items.push(json!({"k":"msg","b":bytes_json(&vec![0u8; (4*l) as usize]),"wl":l/2})),
                                 _ => items.push(json!({"k":"msg","b":bytes_json(&rand_bytes(&mut rng, (l/4) as usize, false)),"wl":l/2})),
                             }
